@@ -281,6 +281,15 @@ let () =
     | [s] -> show_res hex_of_bytes (decrypt_pkg (fun x -> x) (bytes_of_hex s))
     | _ -> "bad-args")
 
+(* ---- C14 checkSheet over arbitrary row numbers ---- *)
+let () =
+  reg "c14.checksheet" (fun a ->
+    let rs = List.map (fun t -> match String.split_on_char ',' t with
+      | [r; n] -> (z_of_string r, z_of_string n)
+      | _ -> failwith ("bad row " ^ t)) a in
+    let (n, pl) = check_sheet rs in
+    string_of_z n ^ " " ^ String.concat " " (List.map (fun o -> match o with Some i -> string_of_z i | None -> "-1") pl))
+
 (* ---- C18 defined names ---- *)
 let () =
   reg "c18.names" (fun a ->
